@@ -73,6 +73,15 @@ var properties = map[string][]harnessSpec{
 		{Name: "chord.VerifC16AttrNames", Marks: end},
 		{Name: "chord.VerifC16UserDict", Quick: map[string]int{"C16.maxUser": 2}, Thorough: map[string]int{"C16.maxUser": 3}, Marks: []string{"end", "rejected", "accepted"}, MustTerminate: true},
 	},
+	"C05": {
+		{Name: "astconv.VerifC05RoundTrip", Marks: []string{"end", "needs-double-accidental", "degree-text-rejected"}},
+		{Name: "astconv.VerifC05KeyChange", Marks: []string{"end", "carrier-rejected"}},
+		{Name: "astconv.VerifC05Classifier", Quick: map[string]int{"C05.maxChords": 2, "C05.preemptions": 1}, Thorough: map[string]int{"C05.maxChords": 3, "C05.preemptions": 2}, Marks: []string{"end", "classified", "refused"}},
+		{Name: "play.VerifC05Transpose", Quick: map[string]int{"C05.maxDegree": 9}, Thorough: map[string]int{"C05.maxDegree": 15}, Marks: []string{"end", "rejected"}},
+	},
+	"C17": {
+		{Name: "desc.VerifC17Diatonic", Marks: end},
+	},
 	"C06": {
 		{Name: "midix.VerifC06AddStep", Quick: map[string]int{"C06.maxTracks": 8}, Thorough: map[string]int{"C06.maxTracks": 32}, Marks: end},
 		{Name: "midix.VerifC06TwoAdds", Quick: map[string]int{"C06.maxTracks2": 4}, Thorough: map[string]int{"C06.maxTracks2": 8}, Marks: end},
@@ -83,7 +92,7 @@ var properties = map[string][]harnessSpec{
 }
 
 func init() {
-	for _, id := range []string{"C05", "C08", "C10", "C11", "C12", "C17"} {
+	for _, id := range []string{"C08", "C10", "C11", "C12"} {
 		notApplicable[id] = "check not built yet in this session (work in progress; see DESIGN.md section 4 for the plan)"
 	}
 }
